@@ -9,7 +9,6 @@ REQUIRED = ["DaeVerif.C07.Props." + n for n in (
     "daedns_select_is_first_match",
     "extra_sections_do_not_route",
     "reject_empties_answer_section_only",
-    "reject_keeps_cache_of_names_with_bar",
     "class_does_not_route",
     "non_in_question_is_never_cached",
     "class_is_part_of_the_cache_key",
